@@ -300,6 +300,8 @@ def run_shard(ctx):
     parser_models(ctx)
     integer_models(ctx)
     if ctx.shard == 0:
+        renamed_trace(ctx)
+    if ctx.shard == 0:
         # tracer next to the alias extension: a trace asked for by alias is a trace of that variable (twin traced by the variables' own names)
         from . import c18
         c18.traced_aliases(ctx, c18.canon_class(), ctx.rng('c17-alias'), every=True)
@@ -367,6 +369,37 @@ def parser_models(ctx):
                     stored = [float(A[x][t]) for x in names]
                     if not all(a == b or (math.isnan(a) and math.isnan(b)) for a, b in zip(got[:, -1].tolist(), stored)):
                         ctx.violation('trace-end-not-solution', f'parser model period {t}: end {got[:, -1].tolist()} stored {stored}', case)
+
+
+def renamed_trace(ctx):
+    """A class that keeps its traces under another name (TRACE_NAME) - the documented way out when the model has a variable called
+    'trace' of its own: tracing still changes nothing about the solution, and the snapshots are where the class says."""
+    import fsic
+    from fsic.extensions import TracerMixin
+    Model = fsic.build_model(fsic.parse_model('Y = 0.5 * Y[-1] + trace\nZ = Y * 2'))
+
+    class TH(TracerMixin, Model):
+        TRACE_NAME = 'history'
+
+    class PH(Model):
+        pass
+
+    for entry in ('solve', 'solve_t', 'solve_period'):
+        for spec in (True, ['Y'], 'Z'):
+            case = dict(kind='renamed-trace', entry=entry, trace=spec)
+            ctx.evaluation(case, nontrivial=True, sample=case)
+            A, B = TH(range(2000, 2005), trace=3.0), PH(range(2000, 2005), trace=3.0)
+            args = {'solve': (), 'solve_t': (2,), 'solve_period': (2002,)}[entry]
+            ra, rb = call(getattr(A, entry), *args, trace=spec, failures='ignore', max_iter=40), call(getattr(B, entry), *args, failures='ignore', max_iter=40)
+            ctx.count('twin_runs_compared')
+            if repr(ra) != repr(rb) or any(A[x].tolist() != B[x].tolist() for x in Model.NAMES) or list(A.status) != list(B.status):
+                ctx.violation('tracing-changes-outcome', f'class with TRACE_NAME = "history": {entry}(trace={spec!r}) -> {str(ra)[:120]}; without tracing -> {str(rb)[:120]}', case)
+                return
+            tr = A['history'][2]
+            ctx.count('trace_snapshots_compared', len(tr.index))
+            if list(tr.index)[:3] != ['start', 'before', 0] or (str(A.status[2]) == '.' and tr.index[-1] != 'end'):
+                ctx.violation('trace-labels', f'class with TRACE_NAME = "history": period 2 trace labels {list(tr.index)}', case)
+                return
 
 
 def integer_models(ctx):
